@@ -45,19 +45,6 @@ func (e *vhM) deliverMaybeCrash(msg vhMsg) (crashed bool) {
 	}
 }
 
-func vhValidSigs(keys []gcrypto.PubKey, content []byte, signers int, tag byte) []gcrypto.SparseSignature {
-	var sigs []gcrypto.SparseSignature
-	for i := range keys {
-		if signers&(1<<uint(i)) == 0 {
-			continue
-		}
-		sig := vkit.Sig(byte(i), tag)
-		verifrt.Assume(keys[i].Verify(content, sig))
-		sigs = append(sigs, gcrypto.SparseSignature{KeyID: vkit.KeyID(i), Sig: sig})
-	}
-	return sigs
-}
-
 type vhFinal struct {
 	vh, ch uint64
 	vr, cr uint32
